@@ -120,9 +120,19 @@ func isBufParam(fn *ssa.Function) bool {
 
 // pathTokens: tokens of one path; star = executed at loop depth greater than base.
 func (g *grammarCtx) pathTokens(f *ssa.Function, p *Path) []tok {
-	d := g.depths(f)
+	d0 := g.depths(f)
 	var out []tok
 	for _, e := range p.Effects {
+		// loop depth of the effect: in its own function, plus that of every inlined call on the way to it
+		d := d0
+		if len(e.Via) > 0 {
+			d = map[*ssa.BasicBlock]int{}
+			n := g.depths(e.Block.Parent())[e.Block]
+			for _, via := range e.Via {
+				n += g.depths(via.Parent())[via.Block()]
+			}
+			d[e.Block] = n
+		}
 		switch e.Kind {
 		case "call":
 			call, _ := e.Instr.(*ssa.Call)
